@@ -105,6 +105,9 @@ DocObjForeign(op, L, R) ==
              [] OTHER -> Unspec )
     [] R = "Vec" ->
          ( CASE op = "*" /\ L \in (Pose \cup {"UnitQuaternion", "UnitDualQuaternion"}) -> ArrR
+             \* "dq * p transforms the point p by the UNIT dual quaternion dq": for the general class the pair is
+             \* not defined, whatever value the object holds
+             [] op = "*" /\ L = "DualQuaternion"                      -> RaiseR
              [] OTHER -> Unspec )
     \* the tables of / say "any other input combination results in a ValueError": pose / array is such a combination;
     \* a pose or unit quaternion times a matrix of points is decided for single-valued left operands only (C06), so the
